@@ -28,6 +28,16 @@
 //! * `codes`    — every record type number 0..=65535 that is a data type,
 //!   through the RFC 3597 generic form; every class number; every SVCB
 //!   parameter key number (quick: a stated subset); TTL digit boundaries.
+//! * `tokens`   — the class / TTL / type tokens between owner and data and
+//!   the reader's dispatch on them: every class that has a mnemonic (IN, CH,
+//!   HS, NONE, ANY and whatever else the library prints as one) and the
+//!   numeric neighbours of each (CLASS0, 2, 5, 253, 256, 65535, ...) x every
+//!   data type that has a mnemonic (generic data) + TYPEnnn types whose
+//!   number is a class / TTL number + typed A / NS / TXT x TTLs that are also
+//!   class / type numbers x the four display kinds and, assembled by the
+//!   harness from the library's token writers (`ZonefileFmt` and `Display`,
+//!   blank and tab separated), the other RFC 1035 layouts: class before TTL,
+//!   TTL omitted (`$TTL` line), class omitted (reader's default class), both.
 //! * `readers`  — every compact value x 3 envelopes x 3 kinds x origin x the
 //!   11 ways of constructing / configuring / driving the reader
 //!   (`From<&[u8]>`, `From<&str>`, `load`, `new`+`reserve`+
@@ -1087,14 +1097,19 @@ fn sweep_envelope(col: &Collector, thorough: bool) {
         .collect();
     let base_owner = name_of(&[b"a"]);
     let mut classes = vec![Class::IN, Class::CH, Class::HS, Class::from_int(4660)];
+    if thorough {
+        // the remaining classes with a mnemonic (the `tokens` sweep crosses
+        // every class with every type / TTL / layout in both tiers)
+        classes.extend([Class::from_int(254), Class::from_int(255), Class::from_int(0), Class::from_int(65535)]);
+    }
     let mut ttls = vec![0u32, 1, 3600, 0x7FFF_FFFF];
     // pre-pass: each class / TTL alone on the first value
     {
         let mut lc = Local::default();
         let (v0, z0) = &vals[0];
         classes.retain(|c| {
-            let f = Focus::new("class", &c.to_string(), "-");
-            let note = format!("class {c} on {}", v0.desc);
+            let f = Focus::new("class", class_cat(c.to_int()), "-");
+            let note = format!("class {} on {}", c.to_int(), v0.desc);
             let m = CaseMeta { sweep: "envelope-class", focus: &f, sig_detail: true, is_name: false, note: &note };
             let rec = Record::new(base_owner.clone(), *c, Ttl::from_secs(3600), z0.clone());
             (0..GATED_KINDS).fold(true, |ok, k| col.case(&mut lc, &m, &rec, &v0.wire, k, false) && ok)
@@ -1325,18 +1340,15 @@ fn sweep_codes(col: &Collector, thorough: bool) {
                 col.case(&mut lc, &m, &rec, &data, k, false);
             }
         }
-        // classes (QCLASS NONE 254 and ANY 255 are not zone-file classes)
+        // classes: every number, the ones with a mnemonic (IN, CH, HS and
+        // the RFC 2136 / RFC 1035 classes NONE 254 and ANY 255) included -
+        // the property quantifies over all classes
         for cl in (c * 256)..((c + 1) * 256) {
             let cl = cl as u16;
-            if cl == 254 || cl == 255 {
-                lc.inc("codes:class:skipped-qclass".into());
-                continue;
-            }
             let wire = vec![192, 0, 2, 1];
             let z = value_from_wire(1, &wire).expect("A");
             let rec = Record::new(owner.clone(), Class::from_int(cl), Ttl::from_secs(3600), z);
-            let cn = Class::from_int(cl).to_string();
-            let focus = Focus::new("class", "number", if cn.starts_with("CLASS") { "CLASSnnn" } else { &cn });
+            let focus = Focus::new("class", "number", class_cat(cl));
             let note = format!("class {cl}");
             let m = CaseMeta { sweep: "codes-class", focus: &focus, sig_detail: false, is_name: false, note: &note };
             for k in KIND_RANGE {
@@ -1394,6 +1406,211 @@ fn sweep_codes(col: &Collector, thorough: bool) {
         }
     }
     col.merge(lc);
+}
+
+/// The harness's own name of a class (RFC 6895 section 3.2 registry); never
+/// the library's text, so that signatures do not move with the writer.
+fn class_cat(c: u16) -> &'static str {
+    match c {
+        1 => "IN",
+        3 => "CH",
+        4 => "HS",
+        254 => "NONE",
+        255 => "ANY",
+        _ => "CLASSnnn",
+    }
+}
+
+/// The forms of the `tokens` sweep. 0..=3 are the record formatter's display
+/// kinds; the others are lines assembled by the harness from the library's
+/// token writers in the other layouts RFC 1035 section 5.1 allows
+/// (`[class] [TTL] type`, either of class / TTL omitted).
+struct TokForm {
+    name: &'static str,
+    /// 0: owner TTL class type (record formatter); 1: owner class TTL type;
+    /// 2: `$TTL` line, owner class type; 3: owner TTL type, class from the
+    /// reader's default class; 4: `$TTL` line, owner type, default class
+    layout: usize,
+    kind: usize,
+    sep: char,
+    /// tokens written by `Display` instead of `ZonefileFmt`
+    disp: bool,
+}
+
+fn tok_forms() -> Vec<TokForm> {
+    let mut v = Vec::new();
+    for kind in KIND_RANGE {
+        v.push(TokForm { name: "record-formatter", layout: 0, kind, sep: ' ', disp: false });
+    }
+    for (layout, lname) in [(1usize, "class-ttl-type"), (2, "$TTL+class-type"), (3, "ttl-type+default-class"), (4, "$TTL+type+default-class")] {
+        for (sep, disp, vname) in [(' ', false, "blank/ZonefileFmt"), ('\t', false, "tab/ZonefileFmt"), (' ', true, "blank/Display")] {
+            let name: &'static str = Box::leak(format!("{lname}({vname})").into_boxed_str());
+            v.push(TokForm { name, layout, kind: 0, sep, disp });
+        }
+    }
+    v
+}
+
+/// The text of a hand-assembled form: every token is written by the
+/// library (owner: `fmt_with_dot`; class / type: `ZonefileFmt` or `Display`;
+/// data: `ZonefileFmt`, simple kind); the TTL is a decimal number.
+fn tok_text(rec: &Rec, f: &TokForm) -> Result<String, String> {
+    guard(|| {
+        let zf = DisplayKind::Simple;
+        let owner = rec.owner().fmt_with_dot().to_string();
+        let rt = rec.data().rtype();
+        let (class, rtype, ttl) = if f.disp {
+            (rec.class().to_string(), rt.to_string(), rec.ttl().as_secs().to_string())
+        } else {
+            (rec.class().display_zonefile(zf).to_string(), rt.display_zonefile(DisplayKind::Simple).to_string(), rec.ttl().display_zonefile(DisplayKind::Simple).to_string())
+        };
+        let data = rec.data().display_zonefile(DisplayKind::Simple).to_string();
+        let s = f.sep;
+        match f.layout {
+            1 => format!("{owner}{s}{class}{s}{ttl}{s}{rtype}{s}{data}"),
+            2 => format!("$TTL{s}{ttl}\n{owner}{s}{class}{s}{rtype}{s}{data}"),
+            3 => format!("{owner}{s}{ttl}{s}{rtype}{s}{data}"),
+            _ => format!("$TTL{s}{ttl}\n{owner}{s}{rtype}{s}{data}"),
+        }
+    })
+}
+
+/// `tokens`: the three tokens between owner and data. Every class that has
+/// a mnemonic (from the registry and from what the library prints) and the
+/// numeric neighbours of each x every data type that has a mnemonic (generic
+/// RFC 3597 data) plus TYPEnnn types whose numbers are class / TTL numbers
+/// plus typed A / NS / TXT data x TTLs that are also class / type numbers
+/// x the four display kinds and the other RFC 1035 layouts. Single axes
+/// first, so that a failure of the product is attributed to the axis value
+/// that already fails alone in the same form.
+fn sweep_tokens(col: &Collector, thorough: bool) {
+    use domain::base::rdata::UnknownRecordData;
+    let owner = name_of(&[b"a"]);
+    let forms = tok_forms();
+    // --- menus
+    let mut classes: BTreeSet<u16> = [0u16, 1, 2, 3, 4, 5, 253, 254, 255, 256, 4660, 65279, 65280, 65535].into_iter().collect();
+    for c in 0..=65535u16 {
+        // whatever else the library writes as a mnemonic, and its neighbours
+        if !Class::from_int(c).to_string().starts_with("CLASS") {
+            classes.extend([c.saturating_sub(1), c, c.saturating_add(1)]);
+        }
+    }
+    let classes: Vec<u16> = classes.into_iter().collect();
+    let mut ttls: Vec<u32> = vec![0, 1, 4, 255, 3600, 65535, 0x7FFF_FFFF];
+    if thorough {
+        ttls.extend([2, 3, 5, 253, 254, 256, 4660, 65280, 65536, 99999, 1_000_000_000]);
+    }
+    ttls.sort();
+    // types: (type, value, reference RDATA, description)
+    let not_zone_type = |t: u16| t == 0 || t == 41 || (128..=255).contains(&t);
+    let mut types: Vec<(u16, ZRd, Vec<u8>, String)> = Vec::new();
+    for (rt, wire, desc) in [(1u16, vec![192, 0, 2, 1], "A 192.0.2.1"), (2, to_wire(&[b"m".to_vec(), b"z".to_vec()]), "NS m.z."), (16, cat(&[&cs(b"a b"), &cs(b"")]), "TXT \"a b\" \"\"")] {
+        let z = value_from_wire(rt, &wire).expect("menu value");
+        types.push((rt, z, wire, format!("typed {desc}")));
+    }
+    let numberlike: BTreeSet<u16> = classes.iter().copied().chain(ttls.iter().filter(|t| **t <= 65535).map(|t| *t as u16)).collect();
+    for t in 0..=65535u16 {
+        if not_zone_type(t) {
+            continue;
+        }
+        let mnemonic = !Rtype::from_int(t).to_string().starts_with("TYPE");
+        if !(mnemonic || numberlike.contains(&t) || (thorough && t % 257 == 0)) {
+            continue;
+        }
+        let data = vec![0xab, t as u8];
+        if let Ok(u) = UnknownRecordData::from_octets(Rtype::from_int(t), data.clone()) {
+            types.push((t, ZRd::Unknown(u), data, format!("type {t} with RFC 3597 generic data")));
+        }
+    }
+    let tcat = |t: u16| -> String {
+        let tn = Rtype::from_int(t).to_string();
+        if tn.starts_with("TYPE") { "TYPEnnn".into() } else { tn }
+    };
+    {
+        let mut lc = Local::default();
+        lc.add("tokens:classes".into(), classes.len() as u64);
+        lc.add("tokens:types".into(), types.len() as u64);
+        lc.add("tokens:ttls".into(), ttls.len() as u64);
+        lc.add("tokens:forms".into(), forms.len() as u64);
+        col.merge(lc);
+    }
+    // one case; returns whether it passed
+    let run = |lc: &mut Local, sweep: &'static str, focus: &Focus, rec: &Rec, wire: &[u8], f: &TokForm, note: &str| -> bool {
+        let m = CaseMeta { sweep, focus, sig_detail: false, is_name: false, note };
+        if f.layout == 0 {
+            return col.case(lc, &m, rec, wire, f.kind, false);
+        }
+        match tok_text(rec, f) {
+            Ok(text) => col.case_ex(lc, &m, rec, wire, f.kind, false, if f.layout >= 3 { 8 } else { 0 }, Some(&text)),
+            Err(p) => {
+                lc.evals += 1;
+                piece_fail(col, lc, format!("C06|{}|{}|{}|token-writer-panic", focus.ty, focus.field, focus.oct), format!("{note}: a token writer panicked: {p}"), json!({"sweep": sweep, "class": rec.class().to_int(), "ttl": rec.ttl().as_secs(), "rtype": rec.data().rtype().to_int(), "rdata": hex(wire), "form": f.name}));
+                false
+            }
+        }
+    };
+    let form_oct = |f: &TokForm| f.name.to_string();
+    // --- single axes: (axis, category, form name) that fail alone
+    let failing: Mutex<BTreeSet<(&'static str, String, &'static str, usize)>> = Mutex::new(BTreeSet::new());
+    {
+        let mut lc = Local::default();
+        let (_, za, wa, _) = &types[0];
+        for &c in &classes {
+            let rec = Record::new(owner.clone(), Class::from_int(c), Ttl::from_secs(3600), za.clone());
+            for f in &forms {
+                let focus = Focus::new("class", class_cat(c), &form_oct(f));
+                if !run(&mut lc, "tokens-single", &focus, &rec, wa, f, &format!("class {c} alone (IN-typed A record, TTL 3600), form {}", f.name)) && f.kind < GATED_KINDS {
+                    failing.lock().unwrap().insert(("class", class_cat(c).into(), f.name, f.kind));
+                }
+            }
+        }
+        for (t, z, w, d) in &types {
+            let rec = Record::new(owner.clone(), Class::IN, Ttl::from_secs(3600), z.clone());
+            for f in &forms {
+                let focus = Focus::new("rtype", &tcat(*t), &form_oct(f));
+                if !run(&mut lc, "tokens-single", &focus, &rec, w, f, &format!("{d} alone (class IN, TTL 3600), form {}", f.name)) && f.kind < GATED_KINDS {
+                    failing.lock().unwrap().insert(("rtype", tcat(*t), f.name, f.kind));
+                }
+            }
+        }
+        for &ttl in &ttls {
+            let rec = Record::new(owner.clone(), Class::IN, Ttl::from_secs(ttl), za.clone());
+            for f in &forms {
+                let focus = Focus::new("ttl", "number", &form_oct(f));
+                if !run(&mut lc, "tokens-single", &focus, &rec, wa, f, &format!("TTL {ttl} alone (class IN, A record), form {}", f.name)) && f.kind < GATED_KINDS {
+                    failing.lock().unwrap().insert(("ttl", "number".into(), f.name, f.kind));
+                }
+            }
+        }
+        col.merge(lc);
+    }
+    let failing = failing.into_inner().unwrap();
+    // --- the product
+    let jobs: Vec<(usize, usize)> = (0..classes.len()).flat_map(|ci| (0..types.len()).map(move |ti| (ci, ti))).collect();
+    jobs.par_chunks(16).for_each(|chunk| {
+        let mut lc = Local::default();
+        for &(ci, ti) in chunk {
+            let c = classes[ci];
+            let (t, z, w, d) = &types[ti];
+            for &ttl in &ttls {
+                let rec = Record::new(owner.clone(), Class::from_int(c), Ttl::from_secs(ttl), z.clone());
+                let note = format!("class {c} x {d} x TTL {ttl}");
+                for f in &forms {
+                    let focus = if failing.contains(&("class", class_cat(c).into(), f.name, f.kind)) {
+                        Focus::new("class", class_cat(c), &form_oct(f))
+                    } else if failing.contains(&("rtype", tcat(*t), f.name, f.kind)) {
+                        Focus::new("rtype", &tcat(*t), &form_oct(f))
+                    } else if failing.contains(&("ttl", "number".into(), f.name, f.kind)) {
+                        Focus::new("ttl", "number", &form_oct(f))
+                    } else {
+                        Focus::new("class+type+ttl", &format!("{}+{}", class_cat(c), tcat(*t)), &form_oct(f))
+                    };
+                    run(&mut lc, "tokens", &focus, &rec, w, f, &format!("{note}, form {}", f.name));
+                }
+            }
+        }
+        col.merge(lc);
+    });
 }
 
 /// `readers`: every way of constructing / configuring / driving the reader,
@@ -1764,6 +1981,7 @@ fn main() {
     let t_fields = t0.elapsed().as_secs_f64();
     sweep_binary(&col, thorough);
     sweep_codes(&col, thorough);
+    sweep_tokens(&col, thorough);
     sweep_readers(&col);
     sweep_pieces(&col, thorough);
     let t_binary = t0.elapsed().as_secs_f64();
@@ -1801,9 +2019,9 @@ fn main() {
             "rule": "a case is one (record, display kind, origin) triple; non-trivial = the text was written, read back as exactly one record equal in owner/class/TTL/type/data (== and wire octets) followed by EOF, counted once per distinct (text, kind, origin)",
             "exhaustive": true,
             "bound": if thorough {
-                "rgen Thorough menus x 3 kinds x 2 envelopes; compact values x owner menu (incl. all hostile strings <=3) x 4 classes x 4 TTLs x kinds x origin; every textual field x all single octets + all hostile strings <=3; binary lengths 0..70,254..257,1000; all rtypes/classes/SVCB keys; 11 reader entry points x compact values x 3 envelopes; field-level writers/readers (unquoted strings, FromStr of CharStr/OwnedLabel/name types) x the payload menu incl. hostile strings <=3"
+                "rgen Thorough menus x 3 kinds x 2 envelopes; compact values x owner menu (incl. all hostile strings <=3) x 8 classes x 4 TTLs x kinds x origin; every textual field x all single octets + all hostile strings <=3; binary lengths 0..70,254..257,1000; all rtypes/classes/SVCB keys; tokens: every mnemonic class and its numeric neighbours x every mnemonic data type + number-like TYPEnnn + typed A/NS/TXT x 18 TTLs x 16 forms (4 kinds + 4 hand-assembled RFC 1035 layouts x 3 token-writer variants); 11 reader entry points x compact values x 3 envelopes; field-level writers/readers (unquoted strings, FromStr of CharStr/OwnedLabel/name types) x the payload menu incl. hostile strings <=3"
             } else {
-                "rgen Quick menus x 3 kinds x 2 envelopes; compact values x owner menu x 4 classes x 4 TTLs x kinds x origin; every textual field x all single octets, hostile octets at 6 positions, named combinations; binary lengths 0..8,11,12,20,32,33; all rtypes/classes, a subset of SVCB keys; 11 reader entry points x compact values x 3 envelopes; field-level writers/readers (unquoted strings, FromStr of CharStr/OwnedLabel/name types) x the payload menu"
+                "rgen Quick menus x 3 kinds x 2 envelopes; compact values x owner menu x 4 classes x 4 TTLs x kinds x origin; every textual field x all single octets, hostile octets at 6 positions, named combinations; binary lengths 0..8,11,12,20,32,33; all rtypes/classes, a subset of SVCB keys; tokens: every mnemonic class and its numeric neighbours x every mnemonic data type + number-like TYPEnnn + typed A/NS/TXT x 7 TTLs x 16 forms (4 kinds + 4 hand-assembled RFC 1035 layouts x 3 token-writer variants); 11 reader entry points x compact values x 3 envelopes; field-level writers/readers (unquoted strings, FromStr of CharStr/OwnedLabel/name types) x the payload menu"
             },
             "gated_cases_passed": sum(":pass", true),
             "gated_cases_failed": sum(":fail", true),
@@ -1823,7 +2041,8 @@ fn main() {
             "plain Display of Record/record data is not documented to be zone-file syntax (Name's Display is documented as 'common display format'); it is exercised and its failures are listed but not reported as violations",
             "large values (rgen quick/thorough menus, up to 65535 octets of RDATA) are crossed with two envelopes only; the full owner x class x TTL product uses rgen's compact values",
             "values of the fields/binary sweeps are built from harness-written reference RDATA through the library's parser (checked to compose back to the reference); rgen values are built through the constructors",
-            "record classes ANY and NONE (query/update-only) and TTLs above 2^31-1 (RFC 2181 section 8) are not part of the envelope menu",
+            "TTLs above 2^31-1 (RFC 2181 section 8) are not part of the menus; the classes NONE and ANY are (codes and tokens sweeps; envelope product in the thorough tier): the property quantifies over all classes; record types that are not data types (0, OPT, 128..=255) are not",
+            "the hand-assembled layouts of the tokens sweep (class before TTL, TTL and/or class omitted) are built from the library's own token writers and the simple-kind data text; with the class omitted the reader is given the record's class as its default class",
             "an empty character string has no unquoted form and is skipped there; IterScanner (a token-level scanner, not the zone-file reader) and the string-level Base16/32/64 codecs (property C18) are not driven by this harness",
         ],
     );
